@@ -319,11 +319,15 @@ class _Builder:
         return [p]
 
     def _new_or(self, value_ast, t: tuple, line: int) -> tuple:
-        """Give fresh identity to container allocations so mutations can be attributed."""
-        if op(t) in ("list", "dict", "set") and not t[1]:
-            return ("new", op(t), self.low.fresh(), line)
+        """Give fresh identity to container allocations so mutations can be attributed.
+
+        ('new', kind, id, line, init): ``init`` is the display the container starts from
+        (or the factory of a defaultdict).
+        """
+        if op(t) in ("list", "dict", "set"):
+            return ("new", op(t), self.low.fresh(), line, t)
         if op(t) == "display0":
-            return ("new", t[1], self.low.fresh(), line)
+            return ("new", t[1], self.low.fresh(), line, (t[1], ()))
         if op(t) == "call" and op(t[1]) in ("ext", "builtin") and t[1][1] in ("collections.defaultdict", "defaultdict"):
             factory = t[2][0] if t[2] else NONE
             return ("new", "defaultdict", self.low.fresh(), line, factory)
@@ -387,8 +391,13 @@ class _Builder:
         if is_const(test) and isinstance(test[1], bool):
             return self.block(st.body if test[1] else st.orelse, [p])
         a, b = p, p.fork()
-        a.events.append(Ev("guard", st.lineno, test, True))
-        b.events.append(Ev("guard", st.lineno, test, False))
+        pol = True
+        while op(test) in ("not", "truth"):
+            if op(test) == "not":
+                pol = not pol
+            test = test[1]
+        a.events.append(Ev("guard", st.lineno, test, pol))
+        b.events.append(Ev("guard", st.lineno, test, not pol))
         return self.block(st.body, [a]) + self.block(st.orelse, [b])
 
     def _assigned_names(self, stmts: list[ast.stmt]) -> set[str]:
